@@ -703,7 +703,8 @@ class EdgeQLSourceGenerator(codegen.SourceGenerator):
         if node.kind == qlast.ConstantKind.STRING:
             if not _NON_PRINTABLE_RE.search(node.value):
                 for d in ("'", '"', '$$'):
-                    if d not in node.value:
+                    # (a trailing "$" would complete the closing "$$" early)
+                    if d not in node.value + d[:-1]:
                         if '\\' in node.value and d != '$$':
                             self.write('r', d, node.value, d)
                         else:
